@@ -154,8 +154,11 @@ class CorrSim:
         if sar:
             params = [OptionalParam(SAR_MSG_REF_NUM, sar[0]), OptionalParam(SAR_SEGMENT_SEQNUM, sar[1]),
                       OptionalParam(SAR_TOTAL_SEGMENTS, sar[2])]
+        # registered_delivery: every value that asks for some kind of receipt (bits 1-0: 01 always, 10 on failure; bit 4:
+        # intermediate notification) in turn - the correlator does not look at it
+        self._rd_turn = getattr(self, '_rd_turn', 0) + 1
         return SubmitSm(short_message=text, sequence_num=seq, log_id=tok(log), extra_data=tok(extra),
-                        optional_params=params)
+                        optional_params=params, registered_delivery=(1, 2, 1, 17, 18, 3)[self._rd_turn % 6])
 
     def resp(self, kind, seq, status=0, msg_id=''):
         from aiosmpplib import protocol as p
